@@ -25,6 +25,10 @@ pub fn valid_hostile(rng: &mut Rng, names: &[String]) -> String {
         // non-ASCII identifiers and string contents
         text.push_str("\n@pytest.fixture\ndef 夹具_α(alpha):\n    \"\"\"документация 😀\"\"\"\n    return 'ß'\n\ndef test_юникод(夹具_α, alpha):\n    _ = 夹具_α\n");
     }
+    if rng.chance(300) {
+        // multi-line signatures whose closing line carries parentheses in a comment / annotation
+        text.push_str("\n@pytest.fixture\ndef multi(\n    alpha,\n    beta=(1, 2),\n):  # noqa (see issue (12))\n    return alpha\n\ndef test_multi(\n    multi, alpha\n) -> None:  # (why) not\n    _ = beta\n\ndef test_odd(alpha\n              ):pass # ):\n");
+    }
     if rng.chance(250) {
         text.push_str("\n@pytest.mark.usefixtures(\"alpha\", 'béta', \"日本\")\n@pytest.mark.parametrize(\"alpha,beta\", [(1, 2)], indirect=True)\ndef test_marks(alpha, beta): pass\n");
     }
